@@ -462,11 +462,21 @@ func (h *history) pickOffset(r *mon.Rand) (uint64, string) {
 	return sub(kk*b+1, uint64(r.Intn(3))), "far-bucket+-1"
 }
 
+// raceScale cuts the number of random histories for the -race build (thorough only), where the
+// instrumented reference and canary scans are an order of magnitude slower; the count stays a
+// function of (tier, variant) only.
+func raceScale(x *mon.Ctx, n int) int {
+	if strings.HasPrefix(x.Variant, "race") {
+		return n / 10
+	}
+	return n
+}
+
 func eeaWalk(x *mon.Ctx) {
 	if err := refzuc.SelfTest(); err != nil {
 		x.HarnessError("%v", err)
 	}
-	walks := x.Scale(12000, 150000)
+	walks := raceScale(x, x.Scale(12000, 150000))
 	for i := 0; i < walks; i++ {
 		c := x.Begin("walk %d: random history on one cipher object (constructor, key, operations drawn from the case PRNG)", i)
 		if c == nil {
